@@ -1300,6 +1300,13 @@ def cleanup_rules(ctx, crate, info, conv, label):
     if ok_pay:
         disc('O8', b.span(), 'resume_unwind(payload) with the Box moved out of catch_unwind\'s Err on every panic path')
         ctx.inst('O8', 'panic payload passed through [%s]' % label)
+    # ---- O9: the conversion loop runs under catch_unwind only
+    direct = [t for bb, t in calls if callee_path(t) == info['loop_closure'] or
+              ((callee_decl_path(t) or '').startswith('core::ops::function::Fn') and callee_ty_args(t) and callee_ty_args(t)[0] == 'C')]
+    if direct:
+        ctx.add(['C09'], 'O9', fmt_span(direct[0]['span']), 'the conversion loop (or the converter) is called directly by the outer function, outside catch_unwind: a panic of the converter then unwinds past the cleanup and the release of the allocation', key='outside-catch')
+    else:
+        disc('O9', b.span(), 'the conversion loop is only ever entered through catch_unwind')
     # ---- O9: converter not called after catch_unwind returned
     after = b.reachable(info['t_cu']['t']) if info['t_cu']['t'] is not None else set()
     bad = []
